@@ -115,9 +115,10 @@ public:
 	}
     bool anonymous() const {return name_.empty();}
 
-    void set_name(std::string _name) {
-        name_ = std::move(_name);
-    }
+    /// Rename the property. A shared property must keep a non-empty name that
+    /// no other shared property of the same mesh, entity and value type has;
+    /// otherwise std::runtime_error is thrown and nothing changes.
+    void set_name(std::string _name);
 
 	const std::string& internal_type_name() const && = delete;
 
